@@ -261,9 +261,32 @@ Proof.
   apply (model_outcome_holds gen_table c (ru_order r) o WF MO).
 Qed.
 
-Theorem verdict_agree_implies_holds (c : c03_case) :
-  wf_case c -> fst (fst (c03_verdict c)) = true -> snd (fst (c03_verdict c)) = true.
+Lemma nodupb_ok l : nodupb l = true -> NoDup l.
 Proof.
-  intros WF A. unfold c03_verdict in *. simpl in *.
+  induction l as [|x r IH]; simpl; intro H; constructor.
+  - apply andb_true_iff in H as [H _]. apply negb_true_iff in H. intro I'.
+    assert (existsb (Nat.eqb x) r = true) by (apply existsb_exists; exists x; split; [exact I'|apply Nat.eqb_refl]).
+    congruence.
+  - apply IH. apply andb_true_iff in H. tauto.
+Qed.
+
+Lemma wf_caseb_ok (c : c03_case) : wf_caseb c = true -> wf_case c.
+Proof.
+  unfold wf_caseb, wf_case. rewrite !andb_true_iff. intros [[[H1 H2] H3] H4].
+  split; [apply Nat.leb_le; exact H1|]. split; [|split].
+  - apply Forall_forall. intros p Hp. apply Forall_forall. intros o Ho.
+    rewrite forallb_forall in H2. specialize (H2 p Hp). rewrite forallb_forall in H2. specialize (H2 o Ho).
+    destruct o; simpl; auto. apply nodupb_ok. exact H2.
+  - apply Forall_forall. intros p Hp. apply Forall_forall. intros o Ho k Hk.
+    rewrite forallb_forall in H3. specialize (H3 p Hp). rewrite forallb_forall in H3. specialize (H3 o Ho).
+    unfold small_opb in H3. rewrite forallb_forall in H3. apply Nat.ltb_lt. now apply H3.
+  - intros p Hp. rewrite forallb_forall in H4. apply Nat.ltb_lt. now apply H4.
+Qed.
+
+(* what the check computes: the agree bit implies the holds bit *)
+Theorem verdict_agree_implies_holds (c : c03_case) :
+  fst (fst (c03_verdict c)) = true -> snd (fst (c03_verdict c)) = true.
+Proof.
+  unfold c03_verdict. simpl. rewrite andb_true_iff. intros [W A]. apply wf_caseb_ok in W.
   rewrite forallb_forall in *. intros r Hr. apply agree_implies_holds; auto.
 Qed.
